@@ -9,7 +9,42 @@ PY = "/venv/bin/python"
 
 MC = "model_checking"
 # property -> (category, technique, text, note, design_ref)
+PS = "bounded-exhaustive exploration of the program space on the real code, "
 CHECKS = {
+    "C01": (MC, PS + "state invariant (compile/parse) on every successor state",
+            "Every program (pinned seed x context vector with at most b non-canonical dimensions, b=1 quick / 2 thorough) of every "
+            "registered codemod is transformed by the real run(); every state reached - also by re-running and by ordered pairs of "
+            "interacting codemods on collision projects (one invocation and chained) - is checked with CPython's compile()/ast.parse.",
+            "Relative to the pinned seed corpus and the listed context dimensions; candidates from batched runs are re-executed alone through the CLI twice.",
+            "3 C01"),
+    "C02": (MC, PS + "symtable-based unresolved-name inclusion on every transition",
+            "Same exploration as C01; oracle unresolved(after) subset of unresolved(before) with a scope-aware analysis built on CPython's symtable "
+            "(self-tested on a 40-row table), on single runs and on pair histories.",
+            "Binding order inside a scope is not modelled; star-import modules and parser-only inputs are not applicable.",
+            "3 C02"),
+    "C03": (MC, PS + "edge invariant: strict unified-diff fold == bytes on disk",
+            "For every transition of the program space (all codemods x file shapes), of the pair histories (several codemods on one file / manifest "
+            "in one run) and of a manifest enumeration (4 kinds x content alphabet x 4 file shapes), the reported diffs are folded with a "
+            "purpose-built strict applier over the bytes before and compared with the bytes after; files without changeset must be byte-identical.",
+            "Applier self-tested exhaustively over small line lists and cross-checked with patch(1); accepts the patch(1) reading or the split/join-on-LF reading; tolerance = one final newline.",
+            "3 C03"),
+    "C04": (MC, "explicit enumeration of configurations, dry run vs real run on a copy",
+            "All 72 manifest combinations (each kind absent / updatable / not updatable) x codemod kinds (detector-less, semgrep-detected, Sonar, "
+            "dependency-adding) x option sets with at most b non-default options; recursive snapshot (bytes, mode, mtime_ns) before == after "
+            "the dry run and normalised dry report == real report.",
+            "Regex/XML pipeline dry-run guards are covered by C19.",
+            "3 C04"),
+    "C05": (MC, "explicit enumeration of path-selection configurations against a reference model",
+            "A union tree with every path shape (default-excluded directories, non-Python files, file/dir symlinks inside and outside, dangling link), "
+            "at two target locations, x all include lists x exclude lists up to the stated length over a 9-pattern alphabet x 3 codemod modes; "
+            "set of changed files == ref_select_paths, nothing outside changes, changeset paths == changed files.",
+            "fnmatch semantics on relative paths; default excludes apply iff no --path-exclude given (weakest reading).",
+            "3 C05"),
+    "C07": (MC, PS + "history BFS depth 2 (run, re-run) with fixed-point oracle",
+            "For every program of the program space: s1 = K(P), s2 = K(s1) with identical options and result files through the real run(); "
+            "s2 == s1 bytewise and the second report has no changeset.",
+            "Relative to the seed corpus and context dimensions; candidates are re-executed alone through the CLI twice.",
+            "3 C07"),
     "C17": (
         MC,
         "explicit-state enumeration of selection configurations against a reference model",
